@@ -110,5 +110,33 @@ P["C16"] = {
     "outside": "build / remove / re-build histories, store/load of removed rules (other tiers)",
     "runs": [tierA(3, 2, fDeleted, QT), fetchA(4, fDeleted, QT), tierA(4, 2, fDeleted | fRetract, T)]}
 
+TIERC_H = [["zztier", "harness/zztier"]]
+
+
+def tierC(entry, tmpl, extra, tiers, reach, bounds, **kw):
+    r = {"name": "%s-%s%s" % (entry.replace("VerifTierC", "tierC-").lower(), tmpl, "".join("-%s" % e for e in extra)), "pkgdir": "zztier",
+         "harness": TIERC_H, "entry": entry, "args": [tmpl] + extra, "tiers": tiers, "templates": [tmpl + ".grl"], "require_reach": reach, "bounds": bounds}
+    r.update(kw)
+    return r
+
+
+TIERC_ASSUME = [
+    "rule sets enter the executor as heap images of knowledge bases built natively by the real builder (native prefix, zzkb/kbdump); the image is imported type-directed, a type or field the code no longer has is an infrastructure error",
+    "the harness io.Writer / io.Reader are contract-abiding (a short write returns an error; the reader serves the first T bytes of the stored stream)",
+    "all reads of the loader go through io.ReadFull (executed from the standard library's own SSA)",
+]
+P["C12"] = {
+    "design_ref": "DESIGN.md §8 C12", "assumptions": TIERC_ASSUME,
+    "bounds": "templates tiny (1 rule) and two (2 rules, 24 KB stream); saliences symbolic over int32 in the round trip; truncation offset T symbolic over [0,len): every field boundary and the first/last (thorough: every) offset inside each field; failing Write call index symbolic over all calls, with and without a partial write",
+    "outside": "rule sets outside the template family; behavioural equivalence of loaded vs stored instances on symbolic facts (Tier B, when built); readers that return short reads without being at the end",
+    "runs": [tierC("VerifTierCRoundTrip", "two", [1], QT, ["tierC:stored", "tierC:loaded"], "store->load->store->load of template two with symbolic saliences; overwrite=false"),
+             tierC("VerifTierCRoundTrip", "two", [0], QT, ["tierC:stored", "tierC:loaded"], "same with concrete saliences, snapshots compared"),
+             tierC("VerifTierCTruncate", "tiny", [0], QT, ["tierC:cut-inside-a-field", "tierC:cut-at-a-field-boundary"], "every truncation offset of template tiny's stream (symbolic T; first/last offset inside each field)"),
+             tierC("VerifTierCWriterFault", "tiny", [], QT, ["tierC:faulty-store-returned"], "every index of a failing Write call while storing template tiny"),
+             tierC("VerifTierCTruncate", "two", [0], T, ["tierC:cut-inside-a-field", "tierC:cut-at-a-field-boundary"], "every truncation offset of template two's stream", thorough={"max_decisions": 8000}),
+             tierC("VerifTierCTruncate", "tiny", [1], T, ["tierC:cut-inside-a-field", "tierC:cut-at-a-field-boundary"], "every truncation offset of template tiny's stream, every position inside each field", thorough={"max_decisions": 8000}),
+             tierC("VerifTierCWriterFault", "two", [], T, ["tierC:faulty-store-returned"], "every index of a failing Write call while storing template two"),
+             ]}
+
 json.dump({"properties": P}, open(os.path.join(V, "checks.json"), "w"), indent=1)
 print("properties:", sorted(P))
